@@ -6,7 +6,7 @@ from ..model import Model, entry_diffs
 def run(ctx):
     rng = ctx.rng
     modes = drv.QUICK_MODES if ctx.quick else drv.ALL_MODES
-    n = 1200 if ctx.quick else 30000
+    n = 6000 if ctx.quick else 60000
     ctx.rule = ("case = (write entry point, mode, key, time class, metadata shape, raw metadata, declared size?); "
                 "the entry is read back through metadata*, list_sync and index::find* (sync and async) and every "
                 "field is compared structurally; defaults: time within the commit's wall-clock window in ms, "
